@@ -17,7 +17,7 @@ while [ $# -ge 2 ]; do
 done
 (cd "$M" && go build ./... ) || { echo "MUTANT DOES NOT COMPILE"; exit 3; }
 if [ "${SKIP_TESTS:-0}" != 1 ]; then
-  (cd "$M" && go test -vet=off -count=1 ./... 2>&1 | grep -v '^ok\|no test files' | grep -v 'cpu65c816\|TestCPU' | head -5)
+  python3 "$(dirname "$0")/baseline.py" "$M"
 fi
 VERIF_REPO="$M" VERIF_BUDGET_S="${VERIF_BUDGET_S:-60}" "$(dirname "$0")/../run.sh" "$prop" "$tier" | tail -${TAIL:-12}
 echo "exit=${PIPESTATUS[0]}"
